@@ -19,6 +19,15 @@ def main(argv):
         tier = argv[argv.index("--tier") + 1]
     if tier not in ("quick", "thorough"):
         tier = "quick"
+    # watchdog: an abstract interpretation that does not terminate in reasonable time is an analysis failure, never a verdict
+    import signal
+
+    def _timeout(signum, frame):
+        print("ANALYSIS-ERROR property=%s analysis did not finish within the time limit" % pid)
+        sys.stdout.flush()
+        os._exit(2)
+    signal.signal(signal.SIGALRM, _timeout)
+    signal.alarm(int(os.environ.get("VERIF_TIMEOUT", "900" if tier == "quick" else "3600")))
     from sa.report import Check
     from sa.model import Program, AnalysisError
     chk = Check(pid, tier)
